@@ -65,7 +65,7 @@ theorem c10_answers_precede_close (s : State) (hr : Reachable s) (x : Conn) (hx 
     have hg := he.2 x hx rfl
     simp only [Bool.and_eq_true, Bool.or_eq_true, beq_iff_eq, bne_iff_ne, ne_eq, hp] at hg
     obtain ⟨⟨hhttp, _⟩, hq⟩ := hg
-    have hq' : noInflight s x.id = true := by rcases hq with h | h; exact h.2; cases h
+    have hq' : noInflight s x.id = true := by rcases hq with h | h; exact h; cases h
     have hsh := hi.httpShape x hx k hk hc hhttp
     simp only [noInflight, List.all_eq_true, Bool.or_eq_true, bne_iff_ne, ne_eq] at hq'
     have := hq' k hk
